@@ -344,11 +344,13 @@ func main() {
 	}
 	// ---- Solve-level: FinalizeScheduling / TruncateInstanceTypes / ToNodeClaim on real scheduler results (solve.go)
 	solveCases(c)
+	truncCases(c)
 	_ = metav1.Now
 	_ = cloudprovider.InstanceTypes{}
 	_ = sort.Strings
 	c.Meta.Rule = fmt.Sprintf("serialisation: every single constructor call (8 operators x value lists / boundary numerals), %s pairs, %d random triples, each observed through Has over %d probes + satisfiedWhenUndefined and the emitted NodeSelectorRequirements; Any(): repeated draws under recover; ToNodeClaim on %d generated NodePools that pass RuntimeValidate (custom + well-known keys, all operators, optional pod requirement added), one oracle case per requirement key. non-trivial = distinct construction / distinct NodePool", map[bool]string{true: "all", false: "random"}[c.Thorough()], nTriple, len(probes), nPools)
-	c.Meta.Corr = []string{"Requirements.NodeSelectorRequirements (NodeSelectorRequirement + BoundedNodeSelectorRequirements) = C13.Model.to_nsrs",
+	c.Meta.Corr = []string{"cloudprovider.InstanceTypes.Truncate (+ SatisfiesMinValues) on price-ordered options = C13.Trunc.truncate",
+		"Requirements.NodeSelectorRequirements (NodeSelectorRequirement + BoundedNodeSelectorRequirements) = C13.Model.to_nsrs",
 		"Requirement.Any ∈ C13.Model.any_model (range / membership / panic)"}
-	c.Finish("From KV Require Import C13.Model C12.Check C13.Check.", "C13.Check.case", "C13.Check.check_all", 600)
+	c.Finish("From KV Require Import C13.Model C13.Trunc C12.Check C13.Check.", "C13.Check.case", "C13.Check.check_all", 600)
 }
